@@ -1,16 +1,43 @@
-(* Property C14 — single-asset deposit = swap half then deposit; atomic; no residue. PARTIAL.
-   Proved (handler level + chain-model atomicity): the first step only records a buffer and emits ONE sub-message —
-   a swap of floor(amount/2) to the pool manager itself, continued only on success; refused on empty pools and
-   pools with more than two assets; locking only for the sender; the reply runs only when the pool manager's
-   balances are exactly what that swap must have produced, clears the buffer, and deposits exactly the kept half
-   plus the swap proceeds (the Simulation return = what the swap paid, C12) for the chosen receiver — i.e. the second
-   step IS the ordinary two-asset deposit of "half + proceeds"; no other message touches the buffer; whenever
-   anything fails the whole transaction is rejected and nothing changes; with swaps disabled it is rejected.
-   Not proved as one theorem: the end-to-end equality of the resulting world with the manual two-step world
-   (reserves, LP, fees) — covered by the correspondence on single-asset deposits (odd and even amounts, locks).
+(* Property C14 — single-asset deposit = swap half then deposit; atomic; no residue.
+   PROVED at transaction level on the chain model, for every world, sender, pool, amounts and tolerances:
+     C14_single_asset_is_swap_then_deposit — a successful single-asset ProvideLiquidity transaction IS: the swap of
+       floor(amount/2) on the pool as it was (perform_swap, with the caller's swap tolerance) followed by the ordinary
+       two-asset deposit (provide_liquidity) of the kept half plus exactly the swap's proceeds, made by the pool manager
+       for the chosen receiver (or locked for it) on the pool as the swap left it — same reserves, same LP minted, same
+       fees as those two handlers produce; the rest of the transaction only delivers that deposit's messages;
+     C14_no_bookkeeping_left — in every world reachable from genesis by any history the single-asset buffer is empty;
+     C14_atomic / C14_rejected_when_swaps_disabled — all or nothing; refused when swaps are off;
+     C14_first_step / C14_second_step — refused on empty and larger pools, locks only for the sender, the reply checks
+       the pool manager's balances, clears the buffer and sends the second leg;
+     C14_locks_only_for_sender — never locks LP for, or expands a position of, someone else.
+   Remaining gap (why not "the depositor swapping and depositing by hand"): the manual route pays the proceeds to
+   the depositor and takes the deposit from him, the automatic one keeps both inside the pool manager; the equality
+   is stated for the pool manager's state and messages, balances are covered by C01 and by the correspondence.
    Statements only. *)
 From MD.Model Require Import Base Ownable Epoch PoolMath Types PoolManager FarmManager Chain.
-From MD.Proofs Require Import SwapProofs ChainProofs PmProofs ToggleProofs AtomicProofs.
+From MD.Proofs Require Import SwapProofs ChainProofs PmProofs ToggleProofs AtomicProofs PoolCustody PoolCustodyChain SingleSided.
+
+Theorem C14_single_asset_is_swap_then_deposit : forall w sender funds ls ss r pid u l deposit w',
+  aggregate_coins funds = Ok [deposit] ->
+  run_tx w sender PM (WPm (PmProvide ls ss r pid u l)) funds = Ok w' ->
+  let half := (denom_of deposit, amount_of deposit / 2) in
+  exists askc sim s1 wb s2 msgs2 f fl,
+    (exists p, pool_find (w_pm w) pid = Ok p /\ List.length (p_assets p) = 2%nat /\
+               existsb (fun c => amount_of c =? 0) (p_assets p) = false /\
+               find (fun c => negb (String.eqb (denom_of c) (denom_of deposit))) (p_assets p) = Some askc) /\
+    perform_swap (w_pm w) half (denom_of askc) pid None ss = Ok (s1, sim) /\
+    w_pm wb = pm_with_buffer s1 None /\
+    w_em wb = w_em w /\ w_fc wb = w_fc w /\ w_fm wb = w_fm w /\
+    provide_liquidity wb PM [half; (denom_of askc, sc_return sim)] ls ss (Some (addr_or_default w r sender)) pid u l = Ok (s2, msgs2) /\
+    process f (set_pm wb s2) PM msgs2 = (Ok w', fl).
+Proof. exact single_sided_tx. Qed.
+
+Theorem C14_no_bookkeeping_left : forall g w0 ops,
+  genesis_world g = Ok w0 -> 0 <= amount_of (fm_create_fee (g_fm g)) ->
+  NoDup (map denom_of (g_tf_fee g)) -> (forall f, In f (g_tf_fee g) -> 0 <= amount_of f <= HALF_U128) ->
+  0 <= amount_of (g_pm_fee g) <= HALF_U128 ->
+  Forall op_okP ops -> pm_buffer (w_pm (run w0 ops)) = None.
+Proof. exact reachable_no_buffer. Qed.
 
 Theorem C14_first_step : forall w sender funds ls ss r pid u l s' msgs deposit,
   aggregate_coins funds = Ok [deposit] ->
@@ -67,6 +94,8 @@ Theorem C14_rejected_when_swaps_disabled : forall w sender funds ls ss r pid u l
   snd (step w (Tx sender PM (WPm (PmProvide ls ss r pid u l)) funds)) = false.
 Proof. exact tx_single_sided_swap_disabled. Qed.
 
+Print Assumptions C14_single_asset_is_swap_then_deposit.
+Print Assumptions C14_no_bookkeeping_left.
 Print Assumptions C14_first_step.
 Print Assumptions C14_second_step.
 Print Assumptions C14_buffer_touched_only_by_single_asset_deposit.
